@@ -1,7 +1,15 @@
 package main
 
 import (
+	"context"
+	"fmt"
+	"sort"
+
+	cedar "github.com/cedar-policy/cedar-go"
+	pubast "github.com/cedar-policy/cedar-go/ast"
+	"github.com/cedar-policy/cedar-go/types"
 	"github.com/cedar-policy/cedar-go/x/exp/ast"
+	"github.com/cedar-policy/cedar-go/x/exp/batch"
 	"github.com/cedar-policy/cedar-go/x/exp/eval"
 
 	"verifharness/cwf"
@@ -65,4 +73,112 @@ func drivePartial(seed int64, n int, params map[string]string) []Obj {
 		out = append(out, Obj{"op": "partial", "policy": cwf.PolicyToJ(p), "penv": env})
 	}
 	return out
+}
+
+// op "batchignore": {policies: [{id, policy}], template: env with ignored parts (no variables), completions: [env]}
+// -> {ok, results: [{decision, reasons}]}: what batch.Authorize answers for the template.  The completions are the
+// template with concrete values in place of the ignored parts; the specification (not the harness) evaluates the
+// policies under them.
+func opBatchIgnore(c Obj) J {
+	tmpl := must(cwf.JToEnv(c["template"]))
+	set := cedar.NewPolicySet()
+	pols, _ := c["policies"].([]any)
+	for _, pj := range pols {
+		o := pj.(Obj)
+		id, _ := o["id"].(string)
+		set.Add(cedar.PolicyID(id), cedar.NewPolicyFromAST((*pubast.Policy)(must(cwf.JToPolicy(o["policy"])))))
+	}
+	req := batch.Request{Principal: tmpl.P, Action: tmpl.A, Resource: tmpl.R, Context: tmpl.C}
+	results := []any{}
+	err := batch.Authorize(context.Background(), set, tmpl.Store, req, func(r batch.Result) error {
+		reasons := []string{}
+		for _, x := range r.Diagnostic.Reasons {
+			reasons = append(reasons, string(x.PolicyID))
+		}
+		sort.Strings(reasons)
+		dec := "deny"
+		if r.Decision == cedar.Allow {
+			dec = "allow"
+		}
+		results = append(results, Obj{"decision": dec, "reasons": strs(reasons)})
+		return nil
+	})
+	if err != nil {
+		return Obj{"ok": false, "err": ascii(err.Error()), "results": results}
+	}
+	return Obj{"ok": true, "results": results}
+}
+
+// driver "batchignore": random policy sets (several conditions per policy) and environments; one or two request parts
+// ignored; completions from the store's entities, fresh uids and random contexts
+func driveBatchIgnore(seed int64, n int, params map[string]string) []Obj {
+	g := newGen(seed, 3)
+	out := make([]Obj, 0, n)
+	for i := 0; i < n; i++ {
+		pols := []any{}
+		for k := 0; k < 2+g.r.Intn(4); k++ {
+			p := g.policy(3)
+			for len(p.Conditions) < 1+g.r.Intn(3) {
+				p.Conditions = append(p.Conditions, ast.ConditionType{Condition: ast.ConditionWhen, Body: g.expr(kBool, 1+g.r.Intn(3))})
+			}
+			pols = append(pols, Obj{"id": fmt.Sprintf("p%d", k), "policy": cwf.PolicyToJ(p)})
+		}
+		base := g.env()
+		// permits that the environment the template is cut from satisfies: one condition per request part, so that
+		// whichever part is ignored some condition refers to it and the others must still hold
+		if uid, ok := base.P.(types.EntityUID); ok {
+			likely := &ast.Policy{Effect: ast.EffectPermit, Principal: ast.ScopeTypeAll{}, Action: ast.ScopeTypeAll{}, Resource: ast.ScopeTypeAll{}}
+			if g.r.Intn(2) == 0 {
+				likely.Principal = ast.ScopeTypeEq{Entity: uid}
+			}
+			add := func(n ast.Node) {
+				likely.Conditions = append(likely.Conditions, ast.ConditionType{Condition: ast.ConditionWhen, Body: n.AsIsNode()})
+			}
+			add(ast.Principal().Equal(ast.Value(uid)))
+			add(ast.Action().Equal(ast.Value(base.A)))
+			add(ast.Resource().Equal(ast.Value(base.R)).Or(ast.Context().Has("zz")))
+			add(ast.Context().Equal(ast.Value(base.C)))
+			g.r.Shuffle(len(likely.Conditions), func(a, b int) {
+				likely.Conditions[a], likely.Conditions[b] = likely.Conditions[b], likely.Conditions[a]
+			})
+			pols = append(pols, Obj{"id": "likely", "policy": cwf.PolicyToJ(likely)})
+		}
+		env := cwf.EnvToJ(base).(Obj)
+		parts := []string{"p", "a", "r", "c"}
+		ign := map[string]bool{parts[g.r.Intn(4)]: true}
+		if g.r.Intn(3) == 0 {
+			ign[parts[g.r.Intn(4)]] = true
+		}
+		tmpl := Obj{"store": env["store"]}
+		for _, k := range parts {
+			if ign[k] {
+				tmpl[k] = Obj{"k": "ignore"}
+			} else {
+				tmpl[k] = env[k]
+			}
+		}
+		comps := []any{}
+		for k := 0; k < 8; k++ {
+			other := cwf.EnvToJ(g.env()).(Obj)
+			comp := Obj{"store": env["store"]}
+			for _, part := range parts {
+				switch {
+				case !ign[part]:
+					comp[part] = env[part]
+				case k == 0:
+					comp[part] = env[part] // the environment the template was cut from
+				default:
+					comp[part] = other[part]
+				}
+			}
+			comps = append(comps, comp)
+		}
+		out = append(out, Obj{"op": "batchignore", "policies": pols, "template": tmpl, "completions": comps})
+	}
+	return out
+}
+
+func init() {
+	register("batchignore", opBatchIgnore, func(c Obj, obs, exp J) []int { return nil })
+	drivers["batchignore"] = driveBatchIgnore
 }
